@@ -217,6 +217,23 @@ pub fn run(ctx: &Ctx) {
     });
   }
   ctx.subspace(&format!("(c) civil dates of {} years ({} dates): get_term_day / get_term vs latest term day on or before", years.len(), ndates), done, ndates);
+  if ctx.quick() {
+    // (c') the civil day of every term of years 1..9999, the day before and the day after (where the day -> term mapping turns)
+    let done = par_chunks(ctx, 25, G_MAX - 24, 1000, |a, b, l| {
+      for g in a..b {
+        let t = tm.t[g];
+        if t.day == u32::MAX {
+          continue;
+        }
+        for o in [t.day as usize - 1, t.day as usize, t.day as usize + 1] {
+          if o < civ.len() {
+            check_day(ctx, &civ, &tm, o, l);
+          }
+        }
+      }
+    });
+    ctx.subspace("(c') the civil day of every term of years 1..9999, the day before and the day after: get_term_day / get_term", done, (G_MAX - 49) as u64 * 3);
+  }
   // (d) instants: every term's rounded instant -1 s, +0, +1 s (all terms), and noon + 23:59:59 of every date in the windows
   let done = par_chunks(ctx, 25, G_MAX - 24, 1000, |a, b, l| {
     for g in a..b {
